@@ -238,6 +238,12 @@ func TestC14(t *testing.T) {
 	for i, tr := range trees {
 		lines[i] = "c14 " + tr.line()
 		_, err := loc.Client.Call(ctx, "e", []int{i})
+		// the other entry points report the same error: CallResult, and a Batch entry's Error()
+		var ignored any
+		err2 := loc.Client.CallResult(ctx, "e", []int{i}, &ignored)
+		if describeClientErr(err2) != describeClientErr(err) || (err == context.Canceled) != (err2 == context.Canceled) || (err == context.DeadlineExceeded) != (err2 == context.DeadlineExceeded) {
+			res.Violatef("CallResult reports a handler's error differently from Call", tr, "tree %s: Call %s, CallResult %s", tr.line(), describeClientErr(err), describeClientErr(err2))
+		}
 		hErr := errs[i]
 		hc, cc := jrpc2.ErrorCode(hErr), jrpc2.ErrorCode(err)
 		var wireMsg string
